@@ -73,7 +73,8 @@ BOUNDS = {
               "4 885 distinct states, 388 158 setter/pack events; purity: 974 constructor+pack cases over 13 packet classes"),
     "thorough": ("state-hashing BFS over the extended menus (3..18 events) to depth 6 or the fixpoint (fixpoint reached by every CFDP and USLP "
                  "search; PusTc/PusTm stop at depth 6 because the cached CRC multiplies the states) + stateless depth<=4 over the DESIGN.md "
-                 "menus; widths {(1,1),(2,4),(4,8),(8,2)}: 3.4 million histories, 156 510 distinct states, 10.7 million events; "
+                 "menus (BFS: widths {(1,1),(2,4),(4,8),(8,2)}; stateless: the quick tier's two width pairs): 2.2 million histories, "
+                 "129 982 distinct states, 6.0 million events; "
                  "purity: 1 736 cases over the thorough corpora"),
 }
 ASSUMPTIONS = [
